@@ -22,6 +22,7 @@ type Job struct {
 	Name     string           // label in reports (defaults to Func)
 	Pkg      string           // package pattern relative to the repository, e.g. ./metrics
 	Func     string           // harness function
+	Setup    string           // optional concrete set-up function run once (snapshot)
 	GoArch   string           // optional GOARCH for loading (portable bodies)
 	Params   map[string]int64 // harness parameters
 	Sched    bool
@@ -244,7 +245,7 @@ func cmdCheck(args []string) int {
 		for k, v := range j.Params {
 			params[k] = v
 		}
-		cfg := interp.Config{Workers: 8, Sched: j.Sched, LoopCap: j.LoopCap, MaxPaths: j.MaxPaths, QueryTimeoutMS: j.QTimeout, Params: params, KeepScripts: 0}
+		cfg := interp.Config{Workers: 8, Sched: j.Sched, LoopCap: j.LoopCap, MaxPaths: j.MaxPaths, QueryTimeoutMS: j.QTimeout, Params: params, KeepScripts: 0, Setup: j.Setup}
 		if tier == "thorough" {
 			cfg.KeepScripts = 40
 			if cfg.QueryTimeoutMS == 0 {
@@ -407,10 +408,11 @@ type replayFile struct {
 	Msg      string             `json:"msg,omitempty"`
 	Tape     []interp.TapeEntry `json:"tape"`
 	Trace    []string           `json:"trace,omitempty"`
+	Setup    string             `json:"setup,omitempty"`
 }
 
 func writeReplayFile(path, id string, j Job, f interp.Failure) {
-	rf := replayFile{Property: id, Pkg: j.Pkg, Func: j.Func, Params: j.Params, Kind: f.Kind, Assert: f.ID, Msg: f.Msg, Tape: f.Tape, Trace: f.Trace}
+	rf := replayFile{Property: id, Pkg: j.Pkg, Func: j.Func, Params: j.Params, Kind: f.Kind, Assert: f.ID, Msg: f.Msg, Tape: f.Tape, Trace: f.Trace, Setup: j.Setup}
 	b, _ := json.MarshalIndent(rf, "", " ")
 	os.WriteFile(path, b, 0644)
 }
@@ -452,7 +454,7 @@ func (r *replayer) build() bool {
 		r.buildErr = err.Error()
 		return false
 	}
-	test := fmt.Sprintf("package %s\n\nimport (\n\t\"testing\"\n\n\t\"github.com/netflix/rend/zz_verif/rt\"\n)\n\nfunc TestZZReplay(t *testing.T) {\n\trt.Start()\n\tdefer rt.Finish()\n\trt.Run(%s)\n}\n", r.pkgName, r.job.Func)
+	test := fmt.Sprintf("package %s\n\nimport (\n\t\"testing\"\n\n\t\"github.com/netflix/rend/zz_verif/rt\"\n)\n\nfunc TestZZReplay(t *testing.T) {\n\trt.Start()\n\tdefer rt.Finish()\n%s\trt.Run(%s)\n}\n", r.pkgName, setupCall(r.job.Setup), r.job.Func)
 	testPath := filepath.Join(work, "zz_replay_test.go")
 	os.WriteFile(testPath, []byte(test), 0644)
 	ov[filepath.Join(repoDir(), strings.TrimPrefix(r.job.Pkg, "./"), "zz_replay_test.go")] = testPath
@@ -469,6 +471,13 @@ func (r *replayer) build() bool {
 		return false
 	}
 	return true
+}
+
+func setupCall(f string) string {
+	if f == "" {
+		return ""
+	}
+	return "\t" + f + "()\n"
 }
 
 func lastLines(s string, n int) string {
@@ -584,7 +593,7 @@ func cmdReplay(args []string) int {
 		fmt.Fprintln(os.Stderr, err)
 		return 2
 	}
-	j := Job{Pkg: rf.Pkg, Func: rf.Func, Params: rf.Params}
+	j := Job{Pkg: rf.Pkg, Func: rf.Func, Params: rf.Params, Setup: rf.Setup}
 	dir := filepath.Join(verifDir(), "replays", rf.Property)
 	os.MkdirAll(dir, 0755)
 	rp := newReplayer(j, l.pkgs[rf.Pkg].Pkg.Name(), dir)
